@@ -12,6 +12,7 @@ import (
 	"sort"
 	"strconv"
 	"strings"
+	"unicode/utf8"
 
 	"verif/engine/interp"
 )
@@ -19,6 +20,7 @@ import (
 type Snip struct {
 	Src    string `json:"src"`
 	Origin string `json:"origin"`
+	Class  string `json:"class"` // "" (test snippet) | production | optional | pair (generated from the .y files)
 	OK5    bool   `json:"ok5"`
 	OK72   bool   `json:"ok72"`
 	OK74   bool   `json:"ok74"`
@@ -36,14 +38,28 @@ type Probe struct {
 	Toks []TokInfo // source order, free-floating tokens included
 }
 
+// loadCorpus: the snippets of the repository's own tests followed by the sentences
+// generated from the grammar files (tools/gensentences), both with their baseline
+// acceptance per version class.
 func loadCorpus() ([]*Snip, error) {
-	b, err := os.ReadFile(filepath.Join(verifDir, "corpus", "snippets.json"))
-	if err != nil {
-		return nil, err
-	}
 	var out []*Snip
-	if err := json.Unmarshal(b, &out); err != nil {
-		return nil, err
+	seen := map[string]bool{}
+	for _, f := range []string{"snippets.json", "sentences.json"} {
+		b, err := os.ReadFile(filepath.Join(verifDir, "corpus", f))
+		if err != nil {
+			return nil, err
+		}
+		var part []*Snip
+		if err := json.Unmarshal(b, &part); err != nil {
+			return nil, err
+		}
+		for _, s := range part {
+			if seen[s.Src] {
+				continue
+			}
+			seen[s.Src] = true
+			out = append(out, s)
+		}
 	}
 	for i, s := range out {
 		s.ID = i
@@ -172,12 +188,15 @@ func triviaGaps(src string, p *Probe, ids *tokIDs) []Gap {
 		if prevID == ids.id("T_END_HEREDOC") || prevID == ids.id("T_INLINE_HTML") {
 			return
 		}
+		g := Gap{From: lastEnd, To: to, Prev: prevID, Next: next}
 		if prevID == int(';') && prevPrevID == ids.id("T_END_HEREDOC") {
 			// before PHP 7.3 a heredoc label is only recognised when "LABEL;" is followed
-			// by a newline: trivia right after that ';' legitimately changes the program
-			return
+			// by a newline: only trivia that starts with a line terminator keeps the program
+			if to == lastEnd {
+				return
+			}
+			g.Ctx = "after-heredoc-label"
 		}
-		g := Gap{From: lastEnd, To: to, Prev: prevID, Next: next}
 		if haltHead {
 			g.Ctx = "halt-compiler-head"
 		}
@@ -250,6 +269,13 @@ func triviaAlternatives(g Gap, rich bool) [][]string {
 		// "/" + "/*" or "/" + "//" would fuse into a different lexeme
 		sp = " "
 	}
+	if g.Ctx == "after-heredoc-label" {
+		return [][]string{
+			{tC("\n"), tH('s', 0, 1)},
+			{tC("\r\n"), tH('s', 0, 1)},
+			{tC("\n"), tC("/*"), tH('c', 0, 1), tC("*/")},
+		}
+	}
 	alts := [][]string{
 		{tH('w', 1, 2)},
 		{tC(sp + "/*"), tH('c', 0, 2), tC("*/")},
@@ -295,7 +321,7 @@ func (c *Check) triviaJobs(entry, ver string, every int, rich bool, fuel int64, 
 	nsn, ngap := 0, 0
 	for _, s := range snips {
 		p := pr[s.ID]
-		if p == nil || p.NErr != 0 {
+		if p == nil || p.NErr != 0 || s.Class == "pair" {
 			continue
 		}
 		gaps := triviaGaps(s.Src, p, ids)
@@ -353,7 +379,7 @@ func (c *Check) wholeJobs(entry, ver string, fuel int64, onlyOK bool) ([]JobNeed
 }
 
 // windowJobs: S3 - one symbolic byte replaced / inserted at every every-th offset.
-func (c *Check) windowJobs(entry, ver string, every int, fuel int64, maxLen int) ([]JobNeed, error) {
+func (c *Check) windowJobs(entry, ver string, every int, fuel int64, maxLen int, snippetsOnly bool) ([]JobNeed, error) {
 	snips, err := loadCorpus()
 	if err != nil {
 		return nil, err
@@ -361,11 +387,15 @@ func (c *Check) windowJobs(entry, ver string, every int, fuel int64, maxLen int)
 	var needs []JobNeed
 	n := 0
 	for _, s := range snips {
-		if len(s.Src) > maxLen {
+		if len(s.Src) > maxLen || (snippetsOnly && s.Class != "") {
 			continue
 		}
 		for i := 0; i <= len(s.Src); i++ {
 			if every > 1 && (i+s.ID)%every != 0 {
+				continue
+			}
+			// parameters travel as JSON: do not cut inside a multi-byte character
+			if !utf8.ValidString(s.Src[:i]) || !utf8.ValidString(s.Src[i:]) || (i < len(s.Src) && !utf8.ValidString(s.Src[i+1:])) {
 				continue
 			}
 			n++
